@@ -1105,9 +1105,9 @@ let dRl aut s0 is_nt_b0 x =
 
 (** val reads_succ : automaton -> (nat -> bool) -> ntrans -> ntrans list **)
 
-let reads_succ aut nullable_b0 x =
+let reads_succ aut nullable_b x =
   match goto aut (fst x) (snd x) with
-  | Some r -> map (fun c -> (r, c)) (filter nullable_b0 (keys aut r))
+  | Some r -> map (fun c -> (r, c)) (filter nullable_b (keys aut r))
   | None -> []
 
 (** val all_trans : automaton -> ntrans list **)
@@ -1118,9 +1118,9 @@ let all_trans aut =
 (** val readl :
     automaton -> nat -> (nat -> bool) -> (nat -> bool) -> ntrans -> nat list **)
 
-let readl aut s0 nullable_b0 is_nt_b0 x =
+let readl aut s0 nullable_b is_nt_b0 x =
   flat_map (dRl aut s0 is_nt_b0)
-    (saturate ntrans_eqb (reads_succ aut nullable_b0) (S
+    (saturate ntrans_eqb (reads_succ aut nullable_b) (S
       (length (all_trans aut))) (x :: []))
 
 (** val nullable_seq_b : (nat -> bool) -> nat list -> bool **)
@@ -1138,7 +1138,7 @@ let has_trans aut x =
 (** val includes_succ :
     grammar -> automaton -> (nat -> bool) -> ntrans -> ntrans list **)
 
-let includes_succ g aut nullable_b0 x =
+let includes_succ g aut nullable_b x =
   flat_map (fun r ->
     match nth_error g r with
     | Some r0 ->
@@ -1148,7 +1148,7 @@ let includes_succ g aut nullable_b0 x =
              match nth_error r0.rhs d0 with
              | Some a ->
                if (&&) (Nat.eqb a (snd x))
-                    (nullable_seq_b nullable_b0 (skipn (S d0) r0.rhs))
+                    (nullable_seq_b nullable_b (skipn (S d0) r0.rhs))
                then flat_map (fun p' ->
                       match walk aut p' (firstn d0 r0.rhs) with
                       | Some p ->
@@ -1165,9 +1165,9 @@ let includes_succ g aut nullable_b0 x =
     grammar -> automaton -> nat -> (nat -> bool) -> (nat -> bool) -> ntrans
     -> nat list **)
 
-let followl g aut s0 nullable_b0 is_nt_b0 x =
-  flat_map (readl aut s0 nullable_b0 is_nt_b0)
-    (saturate ntrans_eqb (includes_succ g aut nullable_b0) (S
+let followl g aut s0 nullable_b is_nt_b0 x =
+  flat_map (readl aut s0 nullable_b is_nt_b0)
+    (saturate ntrans_eqb (includes_succ g aut nullable_b) (S
       (length (all_trans aut))) (x :: []))
 
 (** val lookback : grammar -> automaton -> nat -> nat -> ntrans list **)
@@ -1180,15 +1180,6 @@ let lookback g aut q r =
       then (p, (lhs_of g r)) :: []
       else []
     | None -> []) (seq O (length aut))
-
-(** val lAl :
-    grammar -> automaton -> nat -> (nat -> bool) -> (nat -> bool) -> nat ->
-    nat -> nat list **)
-
-let lAl g aut s0 nullable_b0 is_nt_b0 q r =
-  if Nat.eqb r O
-  then eof :: []
-  else flat_map (followl g aut s0 nullable_b0 is_nt_b0) (lookback g aut q r)
 
 (** val nmem1 : nat -> nat list -> bool **)
 
@@ -1375,11 +1366,6 @@ let is_nt_b g x =
 let nullable_list g =
   productive_set g (fun _ -> false)
 
-(** val nullable_b : grammar -> nat -> bool **)
-
-let nullable_b g x =
-  nmem2 x (nullable_list g)
-
 (** val productive_list : grammar -> nat list **)
 
 let productive_list g =
@@ -1397,16 +1383,36 @@ let unproductive gi =
 let start_user g =
   hd O (rhs_of g O)
 
-(** val la_exec : grammar -> automaton -> nat -> nat -> nat list **)
+(** val follow_table : grammar -> automaton -> (ntrans * nat list) list **)
 
-let la_exec g aut q r =
-  lAl g aut (start_user g) (nullable_b g) (is_nt_b g) q r
+let follow_table g aut =
+  let nl = nullable_list g in
+  let nb = fun x -> nmem2 x nl in
+  map (fun x -> (x, (followl g aut (start_user g) nb (is_nt_b g) x)))
+    (all_trans aut)
+
+(** val follow_lookup : (ntrans * nat list) list -> ntrans -> nat list **)
+
+let rec follow_lookup ft x =
+  match ft with
+  | [] -> []
+  | p :: ft' ->
+    let (y, l) = p in if ntrans_eqb x y then l else follow_lookup ft' x
+
+(** val la_fast :
+    grammar -> automaton -> (ntrans * nat list) list -> nat -> nat -> nat list **)
+
+let la_fast g aut ft q r =
+  if Nat.eqb r O
+  then eof :: []
+  else flat_map (follow_lookup ft) (lookback g aut q r)
 
 (** val la_table : grammar -> automaton -> (nat * nat list) list list **)
 
 let la_table g aut =
+  let ft = follow_table g aut in
   map (fun q ->
-    map (fun r -> (r, (la_exec g aut q r))) (complete_rules g aut q))
+    map (fun r -> (r, (la_fast g aut ft q r))) (complete_rules g aut q))
     (seq O (length aut))
 
 (** val assoc_list : nat -> (nat * 'a1 list) list -> 'a1 list **)
